@@ -468,7 +468,7 @@ pub fn check(case: &Case, ctx: &mut CaseCtx) -> CaseResult {
 pub fn run(eng: &Engine) {
     eng.set_rule("(valid frame, driver program) pairs: FrameDecoder op lists (decode_blocks with every strategy/budget, collect, read, collect_to_writer with partial / stopping / transiently failing / failing sinks, queries) over fragmenting readers with trailing garbage; StreamingDecoder read-size lists; decode_from_to chunk/target lists incl. the checksum arriving alone or in parts; ground truth is the original content, not another schedule; non-trivial = >= 2 decode calls interleaved with >= 1 drain before the frame finished on a frame whose content exceeds its window; distinct by (frame, program) hash");
     eng.assume("decode_from_to: the first slice contains the complete frame header (the call initialises from it); decode_blocks is not called after the frame finished");
-    let n = eng.tier.pick(5_000, 150_000);
+    let n = eng.tier.pick(25_000, 400_000);
     let tier = eng.tier;
     eng.run_stage("programs", n, || case_strategy(tier), check);
 }
